@@ -497,3 +497,28 @@ class CertLaw(Law):
         pa += '    ensures ' + ',\n        '.join(s for _, s in self.goals) + ',\n{\n'
         pa += '    flat_%s(%s);\n}\n' % (self.name, ', '.join(c for _, c in atoms))
         return fa + pa, pb
+
+
+def ite(c, a, b):
+    """if c { a } else { b } on scalars"""
+    a, b = lift(a), lift(b)
+    return R('(if %s { %s } else { %s })' % (c.spec, a.spec, b.spec), '(if %s { %s } else { %s })' % (c.flat, a.flat, b.flat),
+             ('ite', c.flat, a.ast, b.ast))
+
+
+def s_gt(a, b):
+    return s_lt(b, a)
+
+
+def s_ge(a, b):
+    return s_le(b, a)
+
+
+def struct_ite(c, a, b):
+    """if c { a } else { b } on structs of the same class"""
+    cls = type(a)
+    vals = []
+    for fn, fc in cls.FIELDS:
+        x, y = getattr(a, fn), getattr(b, fn)
+        vals.append(ite(c, x, y) if fc is R else struct_ite(c, x, y))
+    return cls(*vals, spec='(if %s { %s } else { %s })' % (c.spec, a.spec, b.spec))
